@@ -156,6 +156,10 @@ def module_source(base, funcs, imports, placement):
         lines = [t for _, t in items[:k + 1]] + imps + [t for _, t in items[k + 1:]]
     elif placement == "split":
         lines = imps[:1] + [t for _, t in items[:1]] + imps[1:] + [t for _, t in items[1:]]
+    elif placement == "twice":
+        # every import statement written twice: all of them first, and once more after the first item (as after pasting two files
+        # together); naming a module twice imports it once
+        lines = imps + [t for _, t in items[:1]] + list(reversed(imps)) + [t for _, t in items[1:]]
     else:
         raise ValueError(placement)
     return "\n".join(lines) + "\n"
@@ -409,7 +413,7 @@ def _dispatch(job):
 def run(tier, seed):
     thorough = tier == "thorough"
     jobs = []
-    placements = ["first", "after-function", "after-global", "split"] if thorough else ["first", "after-function"]
+    placements = ["first", "after-function", "after-global", "split", "twice"] if thorough else ["first", "after-function", "twice"]
     for bname, base in BASES.items():
         n = len(list(set_partitions(list(base["funcs"]), 3)))
         for lo in range(0, n, 2):
